@@ -5,6 +5,7 @@ import (
 	"errors"
 	"fmt"
 	"os"
+	"runtime"
 	"runtime/debug"
 	"strconv"
 	"strings"
@@ -71,6 +72,7 @@ func TestMain(m *testing.M) {
 	}
 	loadKnownFindings()
 	code := m.Run()
+	cov.Class("process GOARCH=" + runtime.GOARCH)
 	for _, a := range os.Args {
 		if strings.HasPrefix(a, "-test.fuzzworker") {
 			os.Exit(code) // fuzz workers do not own the statistics file
